@@ -2,9 +2,5 @@
 From HostdBase Require Import Base.
 From HostdLedger Require Import Model Proofs.
 
-Theorem c04_observers_pure : forall s a, fst (step s (Balance a)) = s.
-Proof. exact observers_pure. Qed.
-Print Assumptions c04_observers_pure.
-
 Example c04_nonvacuous : snd (step init (Balance 1)) = OBal 0.
 Proof. vm_compute; reflexivity. Qed.
